@@ -9,8 +9,9 @@ from vp.snapshot import capacity, inv_consumer, inv_ref, overcommitted
 
 V1 = {'total': 4, 'reserved': 1, 'min_unit': 1, 'max_unit': 2, 'step_size': 1,
       'allocation_ratio': 1.0}                                    # capacity 3, max_unit binds
-V2 = {'total': 3, 'reserved': 0, 'min_unit': 2, 'max_unit': 4, 'step_size': 1,
-      'allocation_ratio': 1.5}                                    # capacity 4.5 (fractional), min binds
+V2 = {'total': 7, 'reserved': 0, 'min_unit': 2, 'max_unit': 4, 'step_size': 1,
+      'allocation_ratio': 0.5}                                    # capacity 3.5: fractional, rounds UP under
+#                                                                   round-half-even and ceil; min_unit binds
 V3 = {'total': 6, 'step_size': 2}                                 # capacity 6, step binds, defaults
 V4 = {'total': 2}                                                 # capacity 2, all defaults
 VARIANTS = {'V1': V1, 'V2': V2, 'V3': V3, 'V4': V4}
